@@ -69,7 +69,7 @@ def run(facts, rep, tier):
     rep.rule('PA.6', 'getWorkingDirectory(): the buffer handed to getcwd is at least PATH_MAX bytes (every working directory the process can be in fits) and not smaller than the length passed')
     rep.rule('PA.5', 'DirectoryVisitor: visit() saves getWorkingDirectory() before setWorkingDirectory(m_dir); the destructor restores the saved directory whenever one was saved')
     rep.assume('the operating system and libc (fopen / opendir / readdir / chdir / getcwd) behave as documented; POSIX build')
-    rep.note('not decided: agreement with the real filesystem, and the mutual consistency of getPathName / getParentDirectory for every path string (string algebra with npos arithmetic; no finite abstraction claimed)')
+    rep.note('not decided: agreement with the real filesystem (OS behaviour); name / parent are judged for join(d, n) only (PA.8), as the property states')
     fn = {}
     for name in ('exists', 'isFile', 'isDirectory', 'size', 'listChildren'):
         f = facts.fn(f'{P}::{name}')
@@ -312,6 +312,9 @@ def run(facts, rep, tier):
                     else: rep.inconclusive('PA.5', 'the destructor restores the saved working directory', sets[0].site, f'the directory passed to setWorkingDirectory ({v0}) was not followed')
                 else:
                     rep.check(not sets, 'PA.5', 'nothing is restored when nothing was saved', dt[0].shortloc(), 'chdir to an empty path', key='PA.5|dtor-none', fn=dt[0].name)
+    # ---- PA.8 ---------------------------------------------------------------------------------------------------------------------------------
+    import pathseg
+    pathseg.run_rules(facts, rep)
     # ---- PA.7 ---------------------------------------------------------------------------------------------------------------------------------
     _link_rules(facts, rep)
     # ---- PA.6 ---------------------------------------------------------------------------------------------------------------------------------
